@@ -119,21 +119,21 @@ func ReloadHistoryBody(confs []*conf.Conf, labels []string) func() {
 					if same {
 						viol("unresolvable-path-kept", "path %q no longer resolves but the same instance is still registered", n)
 					}
-				case rc.Name == b.ConfName && rc.Equal(b.Conf):
+				case rc.Name == b.ConfName && classifyChange(b.Conf, rc) == "equal":
 					if !same {
 						viol("unchanged-path-recreated", "configuration of path %q did not change but the path was recreated or dropped", n)
 					}
-				case rc.Name == b.ConfName && core.VerifPathConfCanBeUpdated(b.Conf, rc):
+				case rc.Name == b.ConfName && classifyChange(b.Conf, rc) == "hot":
 					if !same {
 						viol("hot-reload-recreated", "only hot-reloadable fields of path %q changed but the path was recreated or dropped", n)
 					}
-				case rc.Name == b.ConfName:
+				case rc.Name == b.ConfName && classifyChange(b.Conf, rc) == "cold":
 					if same {
 						viol("cold-change-kept", "a non hot-reloadable field of path %q changed but the same instance keeps running", n)
 					}
-				default:
+				case rc.Name != b.ConfName:
 					// the path moved to another configuration: keeping (if only hot-reloadable fields differ) or recreating are both accepted
-					if same && !core.VerifPathConfCanBeUpdated(b.Conf, rc) {
+					if same && classifyChange(b.Conf, rc) == "cold" {
 						viol("cold-change-kept", "path %q moved to configuration %q that differs in non hot-reloadable fields but the same instance keeps running", n, rc.Name)
 					}
 				}
@@ -156,6 +156,43 @@ func ReloadHistoryBody(confs []*conf.Conf, labels []string) func() {
 		pm.Close()
 		vsched.Log("end")
 	}
+}
+
+// hotFields are the fields the statement names as hot-reloadable ("forwarding, recording"); Name/Regexp identify
+// the entry. "Some camera controls" is left open by the statement: a difference limited to RPICamera* fields is a
+// don't-care (kept or recreated).
+var hotFields = map[string]bool{
+	"Name": true, "Regexp": true, "Forward": true, "Record": true, "RecordPath": true, "RecordFormat": true,
+	"RecordPartDuration": true, "RecordMaxPartSize": true, "RecordSegmentDuration": true, "RecordDeleteAfter": true,
+}
+
+// classifyChange compares two path configurations from the statement only (not with the repository's predicate):
+// "equal", "hot" (only hot-reloadable fields differ), "camera" (additionally RPICamera* fields differ: don't-care), "cold".
+func classifyChange(o, n *conf.Path) string {
+	ov, nv := reflect.ValueOf(*o), reflect.ValueOf(*n)
+	res := "equal"
+	for i := 0; i < ov.NumField(); i++ {
+		name := ov.Type().Field(i).Name
+		if reflect.DeepEqual(ov.Field(i).Interface(), nv.Field(i).Interface()) {
+			continue
+		}
+		if name == "Regexp" && ov.Field(i).IsNil() == nv.Field(i).IsNil() && (ov.Field(i).IsNil() || o.Regexp.String() == n.Regexp.String()) {
+			continue
+		}
+		switch {
+		case hotFields[name]:
+			if res == "equal" {
+				res = "hot"
+			}
+		case strings.HasPrefix(name, "RPICamera"):
+			if res != "cold" {
+				res = "camera"
+			}
+		default:
+			res = "cold"
+		}
+	}
+	return res
 }
 
 func confDigest(c *conf.Path) string {
